@@ -5,6 +5,7 @@ import Afkak.BrokerClientR
 import Afkak.Bootstrap
 import Afkak.Monitor.C06
 import Afkak.Monitor.C10
+import Afkak.BrokerClientBytes
 /-!
 Driver for the `brokerclient` component (exe `model_brokerclient`).
 
@@ -31,6 +32,8 @@ Requests (one per line; the answer is zero or more lines, then `.`):
   same monitors on the MODEL's own trace since the last `bc-new` / `bs-new`.  `mon-r06` / `mon-r10`
   (`mon-model-r06` / `mon-model-r10`): the monitors for streams with re-entrant callbacks; the flat
   monitors judge the longest flat prefix of a trace (`okp <n>` when that is not the whole trace).
+  `mon-bytes` / `mon-model-bytes`: the per-connection whole-stream check of `Afkak/BrokerClientBytes.lean`;
+  `conn-logs`: the per-connection logs it cuts the recorded trace into.
 -/
 namespace Driver.BrokerClient
 open Driver Afkak.Frame
@@ -363,6 +366,19 @@ def step (st : DSt) (line : String) : DSt × List String :=
     if st.tBad then (st, ["bad-op"]) else
       let p := flatPrefix (fixTr st.trR)
       (st, verdictP p.2 p.1.length (Afkak.Monitor.C06.rFirstBad Afkak.Monitor.C06.RSt.init 0 p.1))
+  | ["mon-bytes"] =>
+    -- framing × broker client on raw bytes, per connection, whole-stream parse (`Afkak/BrokerClientBytes.lean`)
+    if st.tBad then (st, ["bad-op"]) else
+      let p := flatPrefix (fixTr st.trR)
+      (st, verdictP p.2 p.1.length (Afkak.BrokerClientBytes.bytesFirstBad Afkak.BrokerClientBytes.LSt.init 0 p.1))
+  | ["mon-model-bytes"] =>
+    (st, verdictP st.flatOk st.bcTr.length (Afkak.BrokerClientBytes.bytesFirstBad Afkak.BrokerClientBytes.LSt.init 0 st.bcTr.reverse))
+  | ["conn-logs"] =>
+    -- the per-connection logs of the flat prefix of the recorded trace: `log <conn> <bytes hex> <dropped 0|1> <n ok firings> <logOk 0|1>`
+    if st.tBad then (st, ["bad-op"]) else
+      let p := flatPrefix (fixTr st.trR)
+      (st, (Afkak.BrokerClientBytes.connLogs p.1).map (fun g =>
+        s!"log {g.conn} {toHex g.bytes} {if g.dropped then 1 else 0} {g.oks.length} {if Afkak.BrokerClientBytes.logOk g then 1 else 0}"))
   | ["mon-c10"] =>
     if st.tBad then (st, ["bad-op"]) else
       let p := flatPrefix (fixTr st.trR)
